@@ -145,6 +145,18 @@ def ioHistory (isz : Nat) (size : Int × Int × Int) (css : List (Int × Int × 
       | _ => go s t ("bad" :: acc)
   ";".intercalate (go Coords.Store.empty ops [])
 
+/-- a downscaler of the model on a C-ordered (z, y, x) list; `none` entries (uint64 wrap, finding F6) print as "wrap" -/
+def downList (method : String) (t : Conv.Ty) (e : Down.Ext) (fz fy fx : Nat) (o : Option Int) (d : List Int) :
+    Down.Ext × List (Option Int) :=
+  let arr := d.toArray
+  let f : Down.Arr3 := fun z y x => arr[(z * e.y + y) * e.x + x]!
+  let oe := Down.outExt e fz fy fx
+  let coords := (List.range oe.z).flatMap fun z => (List.range oe.y).flatMap fun y =>
+    (List.range oe.x).map fun x => (z, y, x)
+  (oe, if method == "stride" then coords.map fun (z, y, x) => some (Down.stride f fz fy fx z y x)
+    else if method == "majority" then coords.map fun (z, y, x) => some (Down.majority f e fz fy fx z y x)
+    else coords.map fun (z, y, x) => Down.average t f e o fz fy fx z y x)
+
 def parseTy (t : String) : Option Conv.Ty :=
   match t with
   | "uint8" => some .u8 | "uint16" => some .u16 | "uint32" => some .u32 | "uint64" => some .u64
@@ -352,20 +364,10 @@ def handle (toks : List String) : String :=
   | ["down", method, ty, ext, fac, outside, data] =>
     match parseTy ty, parseList parseNat ext, parseList parseNat fac, parseList parseInt data with
     | some t, some [ez, ey, ex], some [fz, fy, fx], some d =>
-      let e : Down.Ext := ⟨ez, ey, ex⟩
-      let f : Down.Arr3 := fun z y x => d[(z * ey + y) * ex + x]!
-      let oe := Down.outExt e fz fy fx
-      let coords := (List.range oe.z).flatMap fun z => (List.range oe.y).flatMap fun y =>
-        (List.range oe.x).map fun x => (z, y, x)
       let o : Option Int := if outside == "none" then none else parseInt outside
-      let hdr := s!"{oe.z},{oe.y},{oe.x} "
-      if method == "stride" then
-        hdr ++ showIntList (coords.map fun (z, y, x) => Down.stride f fz fy fx z y x)
-      else if method == "majority" then
-        hdr ++ showIntList (coords.map fun (z, y, x) => Down.majority f e fz fy fx z y x)
-      else
-        hdr ++ showList (fun (r : Option Int) => match r with | some v => toString v | none => "wrap")
-          (coords.map fun (z, y, x) => Down.average t f e o fz fy fx z y x)
+      let (oe, vals) := downList method t ⟨ez, ey, ex⟩ fz fy fx o d
+      s!"{oe.z},{oe.y},{oe.x} " ++
+        showList (fun (r : Option Int) => match r with | some v => toString v | none => "wrap") vals
     | _, _, _, _ => "bad-request"
   | ["pyr-axis", os, ns, oc, nc] =>
     match parseNat os, parseNat ns, parseNat oc, parseNat nc with
@@ -397,6 +399,22 @@ def handle (toks : List String) : String :=
       ";".intercalate ((Tiling.volumeLoop s c).map fun (rx, ry, rz) =>
         s!"{rx.1},{rx.2},{ry.1},{ry.2},{rz.1},{rz.2}")
     | _, _ => "bad-request"
+  | ["value-map", slope, inter, imin, imax, omin, omax] =>
+    -- slope/intercept left on the nibabel proxy by --input-min/--input-max (exact rationals n/d; imax > imin)
+    match parseQ slope, parseQ inter, parseQ imin, parseQ imax, parseQ omin, parseQ omax with
+    | some s, some i, some a, some b, some c, some d =>
+      if (Transform.Q.sub b a).n ≤ 0 then "refused" else
+      let r := Volume.rewriteScaling s i a b c d
+      s!"{r.1.n}/{r.1.d} {r.2.n}/{r.2.d}"
+    | _, _, _, _, _, _ => "bad-request"
+  | ["vol-convert", size, cs, ch] =>
+    -- every write_chunk call of volume_to_precomputed on the identity volume vol[x,y,z,c] = ((x·sy + y)·sz + z)·C + c
+    match (parseList parseNat size) >>= triple, (parseList parseNat cs) >>= triple, parseNat ch with
+    | some (sx, sy, sz), some c, some C =>
+      if sx * sy * sz * C > 200000 then "too-large" else
+      ";".intercalate ((Volume.convert (fun x y z k => ((x * sy + y) * sz + z) * C + k) C (sx, sy, sz) c).map fun (cell, data) =>
+        s!"{cell.1.1}-{cell.1.2}.{cell.2.1.1}-{cell.2.1.2}.{cell.2.2.1}-{cell.2.2.2}:{showNatList data}")
+    | _, _, _ => "bad-request"
   | "fs-history" :: flat :: gz :: rest =>
     -- the operation list may contain spaces inside MIME types? no: tokens are re-joined defensively
     fsHistory ⟨flat == "1", gz == "1"⟩ ((" ".intercalate rest).splitOn ";")
@@ -490,6 +508,58 @@ def handle (toks : List String) : String :=
         let b := k.2
         s!"{k.1}@{b.xmin}-{b.xmax}_{b.ymin}-{b.ymax}_{b.zmin}-{b.zmax}:{if Convert.validFor sr k then 1 else 0}{if Convert.validFor d k then 1 else 0}")
     | _, _ => "bad-request"
+  | ["convert-run", dst, src, missing] =>
+    -- the whole convert_chunks loop (`Convert.run`) over an abstract source: every key valid for the source is
+    -- present (one marker value per chunk) except the key printed as `missing` ("-" = none missing);
+    -- reply: `ok` + the keys the destination holds afterwards, or `err <kind>` (the first error aborts the command)
+    match parseScales dst, parseScales src with
+    | some d, some sr =>
+      let plan := Convert.plan d
+      if plan.length > 20000 then "too-large" else
+      let showK (k : Coords.Key) : String :=
+        let b := k.2
+        s!"{k.1}@{b.xmin}-{b.xmax}_{b.ymin}-{b.ymax}_{b.zmin}-{b.zmax}"
+      let miss : Option Coords.Key := plan.find? fun k => showK k == missing
+      let srcStore : Coords.Store := ⟨fun k => if some k = miss then none else some [k.2.xmin.toNat % 256]⟩
+      let rd := Convert.readK (Convert.validFor sr) (fun _ b => some b) srcStore
+      let wr := Convert.writeK (Convert.validFor d) (fun _ a => a)
+      match Convert.run rd id wr Coords.Store.empty plan with
+      | .error .offGrid => "err offgrid"
+      | .error .missing => "err missing"
+      | .error .format => "err format"
+      | .ok st =>
+        "ok " ++ " ".intercalate ((plan.filter fun k => (st.get k).isSome).map fun k =>
+          let b := k.2
+          s!"{k.1}@{b.xmin}-{b.xmax}_{b.ymin}-{b.ymax}_{b.zmin}-{b.zmax}")
+    | _, _ => "bad-request"
+  | ["pipeline-stepwise", n, ty, enc, fty, fdt, fenc, fblk, method] =>
+    -- the documented sequence of commands: info after generate-scales-info (JSON round trip = identity on the
+    -- model's fields) and the downscaling method compute-scales resolves; next to it the all-in-one command's method
+    let opt (t : String) : Option String := if t == "-" then none else some t
+    match parseNat n, (if fblk == "-" then some none else ((parseList parseNat fblk) >>= triple).map some) with
+    | some n, some blk =>
+      let full : Pipeline.InfoM := ⟨opt fty, fdt, 1, [⟨0, opt fenc, blk⟩]⟩
+      let i := Pipeline.stepwiseInfo id n full (opt ty) (opt enc)
+      let sc := i.scales.map fun s =>
+        s!"{s.encoding.getD "-"}:{match s.csegBlock with | some (a, b, c) => s!"{a}.{b}.{c}" | none => "-"}"
+      s!"{i.type.getD "-"} {i.dataType} {" ".intercalate sc} | {Pipeline.stepwiseMethod id n method full (opt ty) (opt enc)} {Pipeline.allInOneMethod method full (opt ty) (opt enc)}"
+    | _, _ => "bad-request"
+  | ["pipeline-levels", method, ty, ext, outside, n, facs, data] =>
+    -- `Pipeline.computeScales` over 3-D arrays (extent z,y,x; C-order data): levels 0..n-1 by repeated downscaling with
+    -- the model downscaler, transition L -> L+1 using the factors `facs[L]` (z.y.x, each 1 or 2) the info prescribes;
+    -- level n is outside the run and keeps what was stored there
+    match parseTy ty, parseList parseNat ext, parseList parseInt data, parseNat n,
+          (facs.splitOn "/").mapM (fun t => ((t.splitOn ".").mapM parseNat) >>= triple) with
+    | some t, some [ez, ey, ex], some d, some n, some fl =>
+      let o : Option Int := if outside == "none" then none else parseInt outside
+      let ds : Nat × Down.Ext × List Int → Nat × Down.Ext × List Int := fun (L, e, a) =>
+        let (fz, fy, fx) := fl.getD L (2, 2, 2)
+        let (oe, vals) := downList method t e fz fy fx o a
+        (L + 1, oe, vals.map fun r => r.getD (-1))
+      let st : Nat → Nat × Down.Ext × List Int := fun L => if L == 0 then (0, ⟨ez, ey, ex⟩, d) else (L, ⟨0, 0, 0⟩, [0])
+      let out := Pipeline.computeScales ds n st
+      ";".intercalate ((List.range (n + 1)).map fun L => showIntList (out L).2.2)
+    | _, _, _, _, _ => "bad-request"
   | ["fault-store", gz, glen, old, isz, vals, ev] =>
     let oldD : Option Fault.Disk :=
       match old.splitOn ":" with
